@@ -293,6 +293,16 @@ type synthOpts struct {
 	presetB   []byte
 	plain     bool  // complete tables only, no extras
 	kraft     []int // per tree: 0 complete, 1 Kraft sum 1/2, 2 sum 1/4, 3 sum 3/4
+	// related: consecutive blocks use the same alphabet, and the code-length table of tree i in a
+	// block is derived from tree i of the block before it (identical, one entry changed, or one
+	// entry taken out with the rest moved up and the last one doubled - what compacting a table
+	// in place leaves behind)
+	related *relState
+}
+
+type relState struct {
+	k    int     // number of byte values in use
+	lens [][]int // tables of the previous block
 }
 
 func synthOptsRandom(rng *rand.Rand) synthOpts {
@@ -415,6 +425,18 @@ func synthBlock(w *BitW, rng *rand.Rand, o synthOpts, inject int, info *synthInf
 	} else if o.presetB != nil {
 		B = o.presetB
 		tt, ptr = bwtNaive(B)
+	} else if o.related != nil {
+		n := 60 + rng.Intn(200)
+		tt = make([]byte, n)
+		for i := range tt {
+			tt[i] = byte(rng.Intn(o.related.k) * 37)
+			if i < o.related.k {
+				tt[i] = byte(i * 37)
+			}
+		}
+		ptr = rng.Intn(n)
+		B = invBWT(tt, ptr)
+		info.kind = "related"
 	} else if rng.Intn(10) < 7 {
 		B = genRLE1Block(rng, inject == 1)
 		tt, ptr = bwtNaive(B)
@@ -456,12 +478,12 @@ func synthBlock(w *BitW, rng *rand.Rand, o synthOpts, inject int, info *synthInf
 	for _, c := range tt {
 		used[c] = true
 	}
-	if !o.plain && rng.Intn(3) == 0 { // sparse extras that never occur
+	if !o.plain && o.related == nil && rng.Intn(3) == 0 { // sparse extras that never occur
 		for k := 0; k < 1+rng.Intn(5); k++ {
 			used[rng.Intn(256)] = true
 		}
 	}
-	if !o.plain && rng.Intn(30) == 0 {
+	if !o.plain && o.related == nil && rng.Intn(30) == 0 {
 		for i := range used {
 			used[i] = true
 		}
@@ -504,6 +526,10 @@ func synthBlock(w *BitW, rng *rand.Rand, o synthOpts, inject int, info *synthInf
 	if o.kraft != nil {
 		nGroups = len(o.kraft)
 	}
+	if o.related != nil && len(o.related.lens) > 0 && rng.Intn(4) != 0 {
+		nGroups = len(o.related.lens)
+	}
+	var allLens [][]int
 	tabs := make([]*ctable, nGroups)
 	for g := range tabs {
 		lens, _ := genLens(rng, alpha)
@@ -528,7 +554,24 @@ func synthBlock(w *BitW, rng *rand.Rand, o synthOpts, inject int, info *synthInf
 				}
 			}
 		}
+		if o.related != nil && g < len(o.related.lens) && len(o.related.lens[g]) == alpha && (g > 0 || rng.Intn(2) == 0) {
+			prev := o.related.lens[g]
+			lens = append([]int{}, prev...)
+			switch rng.Intn(4) {
+			case 0: // identical
+			case 1: // one entry changed
+				lens[rng.Intn(alpha)] = 1 + rng.Intn(20)
+			default: // one entry taken out, the rest moved up, the last one doubled
+				i := rng.Intn(alpha)
+				lens = append(append([]int{}, prev[:i]...), prev[i+1:]...)
+				lens = append(lens, lens[len(lens)-1])
+			}
+		}
+		allLens = append(allLens, lens)
 		tabs[g] = mkCTable(lens)
+	}
+	if o.related != nil {
+		o.related.lens = allLens
 	}
 	// selectors
 	need := (len(syms) + 49) / 50
